@@ -1,7 +1,421 @@
-/- C11: model not built yet (stub so that the per-property driver links). -/
-import DastardV.Proto
-namespace DastardV.C11
+/-
+C11 — control requests.  The synchronisation skeleton (RPC callers, `runLaterIfActive` rendezvous,
+closures run by the core loop) is the transition system of `Model/C10.lean`.  This file adds
 
-def runLine (_ts : List String) : Verdict := .bad "C11: model not built yet"
+* the closure table: for every closure handed to `runLaterIfActive` the list of its acyclic paths,
+  each a straight-line program over reply / notify / call (regenerated from rpc_server.go by the
+  harness on every run and checked by `chkTable`);
+* the argument validators of the request handlers as pure functions `accept | reject | panic`
+  (transcribed from data_source.go, group_trigger.go, lancero_source.go, rpc_server.go);
+* the acceptance semantics of a request history on a generic source (what the caller is told),
+  used to compare the real `SourceControl` methods reply by reply.
+-/
+import DastardV.Model.C10
+namespace DastardV.C11
+open DastardV.C10 (Tok Fin Line)
+
+/-! ### Closure table -/
+
+inductive Act where
+  | reply | notify | call | unknown
+deriving DecidableEq, Repr
+
+structure Closure where
+  name : String
+  paths : List (List Act)
+deriving Repr
+
+def actOfChar : Char → Act
+  | 'r' => .reply
+  | 'n' => .notify
+  | 'c' => .call
+  | _ => .unknown
+
+def parsePath (s : String) : List Act := if s == "-" then [] else s.toList.map actOfChar
+
+def replies (p : List Act) : Nat := (p.filter (· == .reply)).length
+
+def pathOk (p : List Act) : Bool := replies p == 1 && !p.contains .unknown
+
+/-- every path of every closure sends exactly one result and uses no construct the reader cannot follow -/
+def chkTable (t : List Closure) : Bool := t.all fun c => !c.paths.isEmpty && c.paths.all pathOk
+
+/-! ### Validators -/
+
+inductive V where
+  | accept | reject | panic
+deriving DecidableEq, Repr
+
+def inRange (n : Nat) (i : Int) : Bool := 0 ≤ i && i < n
+
+/-- `AnySource.ChangeTriggerState`: no indices → error; any index ≥ nchan or < 0 → error -/
+def vTrig (nchan : Nat) (idx : List Int) : V :=
+  if idx.isEmpty then .reject
+  else if idx.any (fun i => i ≥ nchan || i < 0) then .reject
+  else .accept
+
+/-- `AnySource.ConfigureProjectorsBases` + `SetProjectorsBasis`: index, then matrix shapes -/
+def vProj (nproc : Nat) (nsamp : Int) (idx : Int) (rows cols brows bcols : Int) : V :=
+  if idx ≥ nproc || idx < 0 then .reject
+  else if nsamp ≠ cols then .reject
+  else if bcols ≠ rows then .reject
+  else if brows ≠ nsamp then .reject
+  else .accept
+
+/-- `AnySource.ConfigurePulseLengths` -/
+def vLen (nsamp npre : Int) : V :=
+  if npre < 3 || nsamp < 1 || nsamp < npre + 1 then .reject else .accept
+
+/-- `AnySource.ArchiveDataBlock` (sample count of a raw-block request) -/
+def vRaw (n : Int) : V := if n < 0 then .reject else .accept
+
+/-- pixel map at `writeControlStart`: map length, then every channel number must have a pixel -/
+def vPix (nchan : Nat) (nums : List Int) (npix : Nat) : V :=
+  if npix ≠ nchan then .reject
+  else if nums.any (fun c => c < 1 || c > npix) then .reject
+  else .accept
+
+/-- `LanceroSource.ConfigureMixFraction`: one fraction per index; indices in range and odd.  The consumer
+then reads `MixFractions[i]` and `Mix[index]` for every position `i`. -/
+def vMix (nmix : Nat) (idx : List Int) (nfrac : Nat) : V :=
+  if nfrac ≠ idx.length then .reject
+  else if idx.any (fun i => i ≥ nmix || i < 0 || i % 2 == 0) then .reject
+  else .accept
+
+/-- what the consumer of an accepted mix request indexes: position `i < idx.length` of the fractions, entry `idx[i]` of Mix -/
+def mixAccessesOk (nmix : Nat) (idx : List Int) (nfrac : Nat) : Bool :=
+  idx.length ≤ nfrac && idx.all (inRange nmix)
+
+/-- `TriggerBroker.AddConnection` / `DeleteConnection` for one pair: accept = table edited (or no-op), reject = error ignored by the caller -/
+def vPair (n : Nat) (add : Bool) (s r : Int) : V :=
+  if add then
+    if s = r then .accept
+    else if !inRange n r then .reject
+    else if !inRange n s then .reject
+    else .accept
+  else if !inRange n r then .reject else .accept
+
+/-- the indices a pair edit uses to index the per-receiver tables -/
+def pairIndexesOk (n : Nat) (add : Bool) (s r : Int) : Bool :=
+  if add then s = r || (inRange n r && inRange n s) else inRange n r
+
+/-- `WriteControl` request strings used by the generator: 0 START 1 STOP 2 PAUSE 3 UNPAUSE 4 "UNPAUSE lbl"
+5 "UNPAUSEx" 6 "UNPAUSE " 7 "bogus" 8 "" 9 "start" -/
+inductive WReq where
+  | start | stop | pause | unpause | unpauseLabel | malformed | other
+deriving DecidableEq, Repr
+
+def wreqOf : Nat → WReq
+  | 0 | 9 => .start
+  | 1 => .stop
+  | 2 => .pause
+  | 3 => .unpause
+  | 4 => .unpauseLabel
+  | 5 | 6 => .malformed
+  | _ => .other
+
+/-! ### Request histories on a generic source -/
+
+structure RS where
+  nchan : Nat
+  active : Bool          -- a core loop runs
+  flag : Bool            -- `isSourceActive`
+  nsamp : Int
+  npre : Int
+  wActive : Bool
+  wPaused : Bool
+  basePath : Bool        -- writingState.BasePath is non-empty
+  writers : Bool         -- some channel has a file writer
+  proj : List Bool       -- channel has projectors
+  archive : Option (Int × Int)   -- (requested, collected) samples of the raw block being acquired
+deriving Repr
+
+def RS.init (nchan : Nat) : RS :=
+  { nchan, active := true, flag := true, nsamp := 32, npre := 8, wActive := false, wPaused := false,
+    basePath := false, writers := false, proj := List.replicate nchan false, archive := none }
+
+inductive Req where
+  | trig (idx : List Int)
+  | len (ns np : Int)
+  | proj (idx : Int) (bad : Nat) (rows cols brows bcols : Int)
+  | write (req path flags : Nat)
+  | label (k : Nat)
+  | comment (k : Nat)
+  | couple (which : Nat) (b : Bool)
+  | group (add : Bool) (flat : List Int)
+  | stopCoupling
+  | raw (n : Int)
+  | block | stop | selfEnd | refresh
+deriving Repr
+
+/-- reply seen by the caller: 0 ok, 1 error -/
+abbrev Ret := Nat
+
+/-- a block of 64 samples reaches the core loop -/
+def RS.onBlock (s : RS) : RS :=
+  match s.archive with
+  | some (n, got) => if got + 64 ≥ n then { s with archive := none } else { s with archive := some (n, got + 64) }
+  | none => s
+
+def setAt (l : List Bool) (i : Nat) : List Bool := l.set i true
+
+/-- requests that go through `runLaterIfActive`: error unless the flag is set and a core loop takes the request -/
+def queued (s : RS) (k : RS → RS × Ret) : RS × Ret :=
+  if !s.flag then (s, 1) else if !s.active then (s, 1) else k s
+
+def reqStep (s : RS) : Req → RS × Ret
+  | .trig idx => queued s fun s => (s, if vTrig s.nchan idx == .accept then 0 else 1)
+  | .len ns np =>
+    if !s.flag then (s, 1)
+    else if ns ≤ 0 || np ≤ 0 then (s, 1)
+    else if s.npre == np && s.nsamp == ns then (s, 0)
+    else if s.wActive then (s, 1)
+    else queued s fun s =>
+      if vLen ns np == .accept then ({ s with nsamp := ns, npre := np, proj := s.proj.map fun _ => false }, 0) else (s, 1)
+  | .proj idx bad rows cols brows bcols =>
+    if bad != 0 then (s, 1)
+    else queued s fun s =>
+      if vProj s.nchan s.nsamp idx rows cols brows bcols == .accept then ({ s with proj := setAt s.proj idx.toNat }, 0) else (s, 1)
+  | .write req path flags => queued s fun s =>
+    match wreqOf req with
+    | .pause => ({ s with wPaused := true }, 0)
+    | .unpause => ({ s with wPaused := false }, 0)
+    | .unpauseLabel => if s.wActive then ({ s with wPaused := false }, 0) else (s, 1)
+    | .malformed => (s, 1)
+    | .other => (s, 1)
+    | .stop => ({ s with writers := false, wActive := false, wPaused := false }, 0)
+    | .start =>
+      if flags == 0 then (s, 1)
+      else if s.writers then (s, 1)
+      else if flags / 2 % 2 == 1 && !s.proj.any id then (s, 1)
+      else if path == 1 && !s.basePath then (s, 1)
+      else if path == 2 then (s, 1)
+      else ({ s with writers := true, wActive := true, wPaused := false, basePath := true }, 0)
+  | .label k => if k == 0 then (s, 1) else queued s fun s => (s, if s.wActive then 0 else 1)
+  | .comment k => if k == 0 then (s, 1) else queued s fun s => (s, 0)
+  | .couple _ b => queued s fun s => (s, if b then 1 else 0)
+  | .group _ _ => queued s fun s => (s, 0)
+  | .stopCoupling => queued s fun s => (s, 0)
+  | .raw n => queued s fun s =>
+    if s.archive.isSome then (s, 1)
+    else if vRaw n == .accept then (({ s with archive := some (n, 0) }).onBlock, 0) else (s, 1)
+  | .block => if s.active then (s.onBlock, 0) else (s, 1)
+  | .stop =>
+    if s.active then ({ s with active := false, flag := false, wActive := false, wPaused := false, writers := false, archive := s.archive }, 0)
+    else ({ s with flag := false }, 1)
+  | .selfEnd =>
+    if s.active then ({ s with active := false, wActive := false, wPaused := false, writers := false }, 0) else (s, 1)
+  | .refresh => ({ s with flag := s.flag && s.active }, 0)
+
+def runReqs (s : RS) : List Req → RS × List Ret
+  | [] => (s, [])
+  | r :: rs =>
+    let (s1, x) := reqStep s r
+    let (s2, xs) := runReqs s1 rs
+    (s2, x :: xs)
+
+/-! ### Line parser -/
+
+open P in
+def parseReq : P Req := do
+  let t ← tok
+  match t with
+  | "T" => do let idx ← list int; pure (.trig idx)
+  | "L" => do let a ← int; let b ← int; pure (.len a b)
+  | "P" => do
+    let idx ← int; let bad ← nat; let r ← int; let c ← int; let br ← int; let bc ← int
+    pure (.proj idx bad r c br bc)
+  | "W" => do let a ← nat; let b ← nat; let c ← nat; pure (.write a b c)
+  | "S" => do let k ← nat; pure (.label k)
+  | "C" => do let k ← nat; pure (.comment k)
+  | "E" => do let w ← nat; let b ← bool; pure (.couple w b)
+  | "G" => do let a ← bool; let fl ← list int; pure (.group a fl)
+  | "X" => pure .stopCoupling
+  | "R" => do let n ← int; pure (.raw n)
+  | "B" => pure .block
+  | "K" => pure .stop
+  | "Z" => pure .selfEnd
+  | "F" => pure .refresh
+  | _ => fail s!"bad request {t}"
+
+inductive Kind where
+  | facts
+  | hist (nchan : Nat) (reqs : List Req)
+  | timing
+  | commentFail | dropFail
+  | mapPix (nchan npix : Nat)
+  | mix (nmix : Nat) (idx : List Int) (nfrac : Nat)
+
+open P in
+def parseKind : P Kind := do
+  kw "kind"
+  let k ← tok
+  match k with
+  | "facts" => pure .facts
+  | "hist" => do
+    kw "nchan"; let n ← nat
+    kw "ops"; let reqs ← list parseReq
+    pure (.hist n reqs)
+  | "timing" => pure .timing
+  | "fault" => do
+    let f ← tok
+    match f with
+    | "commentFail" => pure .commentFail
+    | "dropFail" => pure .dropFail
+    | "mapPix" => do kw "nchan"; let n ← nat; kw "npix"; let p ← nat; pure (.mapPix n p)
+    | "mix" => do kw "nmix"; let n ← nat; kw "idx"; let idx ← list int; kw "nfrac"; let f ← nat; pure (.mix n idx f)
+    | _ => fail s!"bad fault {f}"
+  | _ => fail s!"bad kind {k}"
+
+structure RunOut where
+  nums : List Int
+  rets : List Nat
+  probe : Nat
+  toks : List Tok
+  calls : List (String × Nat)
+  fin : Fin
+
+inductive Out where
+  | panic (cls : String)
+  | hang
+  | facts (t : List Closure)
+  | acc (b : Bool)
+  | run (r : RunOut)
+
+open P in
+def parseRunTail (nums : List Int) (rets : List Nat) (probe : Nat) : P Out := do
+  kw "TR"
+  let ts ← list tok
+  let toks ← ts.mapM fun x => match C10.parseTok x with
+    | some k => pure k
+    | none => fail s!"bad trace token {x}"
+  kw "CALLS"
+  let calls ← list (do let r ← tok; let v ← nat; pure (r, v))
+  kw "FIN"
+  kw "st"; let st ← nat
+  kw "go"; let go ← nat
+  kw "wr"; let wr ← nat
+  kw "res"; let res ← nat
+  kw "hang"; let hang ← nat
+  pure (.run { nums, rets, probe, toks, calls, fin := { st, go, wr, res, hang } })
+
+open P in
+def parseOut : P Out := do
+  let t ← tok
+  match t with
+  | "PANIC" => do let c ← tok; pure (.panic c)
+  | "HANG" => pure .hang
+  | "facts" => do
+    let cs ← list (do
+      let name ← tok
+      let ps ← list tok
+      pure ({ name, paths := ps.map parsePath } : Closure))
+    pure (.facts cs)
+  | "ACC" => do let b ← bool; pure (.acc b)
+  | "NUMS" => do
+    let nums ← list int
+    kw "RET"; let rets ← list nat
+    kw "PROBE"; let p ← nat
+    parseRunTail nums rets p
+  | "RET" => do
+    let rets ← list nat
+    kw "PROBE"; let p ← nat
+    parseRunTail [] rets p
+  | "TR" => fun ts => parseRunTail [] [] 9 ("TR" :: ts)
+  | _ => fail s!"bad OUT marker {t}"
+
+open P in
+def parseLine : P (Kind × Out) := do
+  let k ← parseKind
+  C10.skipToOut
+  let o ← parseOut
+  pure (k, o)
+
+/-! ### Oracle and `runLine` -/
+
+def panicSig (cls : String) : String :=
+  if (cls.splitOn "index-range").length > 1 then "C11:panic-index-range"
+  else if (cls.splitOn "makeslice").length > 1 then "C11:panic-makeslice"
+  else if (cls.splitOn "Panic_to_stop_source").length > 1 then "C11:block-io-failure-panic"
+  else if (cls.splitOn "deadlock").length > 1 then "C11:wedge"
+  else s!"C11:panic-{cls}"
+
+/-- life-cycle part of a line, judged by the C10 machinery; a request caller that never returns is this
+property's wedge -/
+def judgeSkeleton (sched : String) (r : RunOut) : Verdict :=
+  let ln : Line := { kind := "loop", opens := false, sched, out := .hang }
+  if r.calls.any (fun c => C10.roleLetter c.1 == "R" && c.2 == 2) then
+    .viol "C11:wedge a control request never returned (nobody receives the request, or the core loop is blocked on a reply nobody reads)"
+  else match C10.judgeRun ln r.toks r.calls r.fin with
+    | .viol v =>
+      if (v.splitOn "C10:cleanup-overlaps-run").length > 1 then .viol ("C11:effect-outside-loop " ++ v)
+      else if (v.splitOn "C10:hang").length > 1 then .viol "C11:wedge a call did not return while requests were being served"
+      else .viol v
+    | x => x
+
+def chkRets (model impl : List Nat) : Option String :=
+  if impl.contains 2 then some "C11:wedge a control request got no reply (watchdog)"
+  else none
+
+def runLine (ts : List String) : Verdict :=
+  match P.run parseLine ts with
+  | .error e => .bad e
+  | .ok (kind, out) =>
+    match kind, out with
+    | _, .hang => .viol "C11:wedge the case did not finish (watchdog)"
+    | .facts, .facts t =>
+      if t.isEmpty then .viol "C11:closure-table-empty no closure passed to runLaterIfActive was recognised in rpc_server.go"
+      else match t.find? (fun c => !(!c.paths.isEmpty && c.paths.all pathOk)) with
+        | some c =>
+          match c.paths.find? (fun p => !pathOk p) with
+          | some p =>
+            if p.contains .unknown then .viol s!"C11:closure-unrecognised {c.name}: a path uses a construct the reader does not follow"
+            else .viol s!"C11:reply-count {c.name}: a path sends {replies p} results on queuedResults (must be exactly 1)"
+          | none => .viol s!"C11:closure-unrecognised {c.name}: no path found"
+        | none => .ok ["facts", s!"closures{t.length}"]
+    | .mix nmix idx nfrac, .acc b =>
+      let v := vMix nmix idx nfrac
+      if b != (v == .accept) then .diff s!"mix request: impl accepted={b} model {repr v}"
+      else if b && !mixAccessesOk nmix idx nfrac then .viol "C11:validator-accepts-bad-index an accepted mix request indexes out of range"
+      else .ok ["mix", if b then "accepted" else "rejected"]
+    | .mix _ _ _, .panic cls => .viol s!"{panicSig cls} the consumer of an accepted Lancero mix request crashed"
+    | .dropFail, .panic cls => .viol s!"{panicSig cls} file creation failed while a block was processed: CoreLoop panics deliberately (server exits)"
+    | _, .panic cls => .viol s!"{panicSig cls} a control request crashed the server"
+    | .timing, .run r => judgeSkeleton "timing" r
+    | .hist nchan reqs, .run r =>
+      (match chkRets [] r.rets with
+      | some v => .viol v
+      | none =>
+        let (s, model) := runReqs (RS.init nchan) reqs
+        if r.rets.length != model.length then .diff s!"history cut short: {r.rets.length} of {model.length} replies"
+        else match firstDiff model r.rets 0 with
+          | some i => .diff s!"reply {i}: impl {r.rets.getD i 9} model {model.getD i 9}"
+          | none =>
+            if r.probe == 1 then .viol "C11:data-stalled the source is active but a block fed after the requests was not processed"
+            else if (r.probe != 0) != s.active then .diff s!"source active: impl probe {r.probe} model {s.active}"
+            else match judgeSkeleton "hist" r with
+              | .ok tags =>
+                let rej := (model.zip reqs).any fun (x, q) => x == 1 && (match q with | .block | .stop | .selfEnd | .refresh => false | _ => true)
+                .ok ((tags ++ (if rej then ["rejected"] else []) ++ (if !s.flag || !s.active then ["afterEnd"] else [])).eraseDups)
+              | v => v)
+    | .commentFail, .run r =>
+      if r.rets.contains 2 then .viol "C11:wedge a control request got no reply (watchdog)"
+      else if r.probe == 1 then .viol "C11:data-stalled WriteComment with an uncreatable comment file blocked the core loop (second reply nobody reads)"
+      else if r.rets != [0, 1] then .diff s!"commentFail replies {r.rets} expected [0, 1]"
+      else (match judgeSkeleton "fault" r with
+        | .ok tags => .ok (tags ++ ["ioFail", "rejected"])
+        | v => v)
+    | .dropFail, .run _ => .diff "dropFail: the model predicts the deliberate panic of CoreLoop, the implementation survived"
+    | .mapPix nchan npix, .run r =>
+      if r.rets.contains 2 then .viol "C11:wedge a control request got no reply (watchdog)"
+      else
+        let v := vPix nchan r.nums npix
+        let want := if v == .accept then 0 else 1
+        if r.rets != [want] then .diff s!"mapPix reply {r.rets} model {want}"
+        else if r.probe == 1 then .viol "C11:data-stalled"
+        else (match judgeSkeleton "fault" r with
+          | .ok tags => .ok (tags ++ ["mapPix"] ++ (if want == 1 then ["rejected"] else []))
+          | v => v)
+    | _, _ => .bad "kind and output do not match"
 
 end DastardV.C11
